@@ -9,7 +9,58 @@ TB = ('Trusted: the pyvc VC generator (engine cross-checked by native replay of 
       'mutation self-test), z3/cvc5 unsat answers, Python semantics listed in DESIGN 2.2, rope axioms, no termination '
       'proof. ')
 
+BND = (' Bounded stand-in (labelled bounded in evidence, never counted as proved): runtime postconditions on the real '
+       'public API over every node of the 20 corpus programs x the operation table, CPython ast.parse + own '
+       'comparator as oracle.')
+
 CHECKS = {
+    'C01': dict(
+        category='proof',
+        text='Proof of the kernel fragment every structured edit is built on: _put_src equals the uniform text splice '
+             'for all line lists, _params_offset/_offset shift every position after the spliced span by exactly the '
+             'size of the change (same obligations as C11). The property itself (parse(src) == live tree after every '
+             'edit) is decided only within the bounded stand-in: ~25k single-step edits and seeded edit sequences, '
+             'each followed by ast.parse + an own tree comparator (types, fields, contexts, all four positions).',
+        note=TB + BND + ' Undecided remainder: that each of the ~300 handlers picks the right rectangle/text/AST. '
+             'Findings: F-C01-1 known, F-C01-2 and F-C01-3 fixed (known_findings.json).',
+        technique='contract-based deductive verification of the splice/shift kernel (z3) + bounded runtime contracts '
+                  'on every public edit entry point with CPython as oracle',
+        ref='DESIGN.md section 4 C01'),
+    'C08': dict(
+        category='exploration',
+        text='Bounded only: replacing every node by its own copy / own source / own pure AST, and cutting every '
+             'slice window of every list field and putting it back, must leave the structure unchanged; evaluated on '
+             'every node of the corpus. No deductive fragment: the round-trip law is defined by the parser and by '
+             'string manipulation outside the verifier\'s reach.',
+        note='Bounded runtime contracts (default options, norm=False). Oracle: ast.dump structural equality and '
+             'ast.parse. Nothing is proved for C08.',
+        technique='bounded runtime contracts (round-trip postconditions) on the real API; not a proof',
+        ref='DESIGN.md section 4 C08'),
+    'C12': dict(
+        category='proof',
+        text='Proof of the modification-registry protocol: _Modifying.enter/success/fail/__exit__ on the process-'
+             'global _MODIFYING (identity-keyed dict, symbolic depth): fresh/nested/reject cases, release restores '
+             'the registry exactly, a rejected enter leaves it unchanged, __exit__ releases exactly once and never '
+             'swallows the exception, other roots\' entries are never touched. Atomicity of the handlers themselves '
+             '(tree unchanged after a raise, next edit works) is bounded: every refused edit of the sweep is followed '
+             'by src/dump/registry comparison and a further valid edit.',
+        note=TB + BND + ' Undecided remainder: raise sites inside handlers after a partial splice (bounded only).',
+        technique='contract-based deductive verification of the registry protocol (symbolic heap, z3) + bounded '
+                  'failure-atomicity contracts on the public API',
+        ref='DESIGN.md section 4 C12'),
+    'C20': dict(
+        category='proof',
+        text='Proof of the option store algebra for ALL option mappings (abstract keys/values, z3 arrays): '
+             'check_options rejects exactly unknown/bad entries and never writes; set_options is atomic (no write on '
+             'any exceptional exit, single update afterwards, returns the old values, a marker cannot bypass '
+             'validation); the options() context manager restores every managed key on normal and exceptional exit '
+             'whatever the block did; get_option prefers the per-call value. Thread isolation is NOT proved over '
+             'schedules: a bounded native check creates worker threads sequentially.',
+        note=TB + 'threading.local and contextlib.contextmanager assumed to behave as documented; the 19 per-option '
+             'checkers are uninterpreted verdicts. No concurrent execution is performed or claimed.',
+        technique='contract-based deductive verification (for-all loop rule over symbolic dicts, z3) + bounded '
+                  'runtime contracts on the option API incl. worker threads',
+        ref='DESIGN.md section 4 C20'),
     'C03': dict(
         category='proof',
         text='Proof of the index layer every container edit goes through: fixup_slice_indices, fixup_one_index and '
